@@ -57,6 +57,10 @@ class C17(vlib.Check):
             'extract: texts with leading/inner/trailing C-locale whitespace, non-ASCII, invalid UTF-8, units > 10FFFF through '
             'operator>>, checked against the token std::basic_string takes from the same text. '
             'non-trivial = a field or a non-ASCII byte is present; distinct = distinct case line')
+    partial = ('wide_sink is proved under its hypothesis (every chunk transcodes on its own, pad bytes < 0x80); without it the '
+               'statement is refuted (wide_sink_unconditional_refuted; known finding wide-sink-per-chunk). Extraction has no '
+               'theorem: the tokenisation is libstdc++\'s; it is modelled for the C locale and checked against the token '
+               'std::basic_string takes.')
     modelled_not_verified = (
         'fwrite/fputc/open_memstream, basic_ostream::write/put, basic_stringbuf: modelled as appending units',
         'istream tokenisation (sentry, ctype<char_T>::is(space)) is libstdc++\'s: modelled for the "C" locale (blank, \\t\\n\\v\\f\\r); '
@@ -108,7 +112,7 @@ class C17(vlib.Check):
                         , (b'{_\xe94}', ['i32:7']), (b'{}\x80', ['S:e282']), (b'{.2}{}', ['s:f09f9880', 's:9880'])]
         pairs += known_shapes
         # seeded soups
-        nrand = 500 if quick else 4000
+        nrand = 500 if quick else 12000
         for _ in range(nrand):
             nf = rng.choice([1, 2, 3])
             f = b''
